@@ -87,6 +87,10 @@ func newCallableType3(args px.List) *CallableType {
 			}
 			argc = iv.Len()
 			args = iv
+			if argc == 0 && rt == nil {
+				// Callable[[]]: neither parameter types nor a return type, the Callable type
+				return DefaultCallableType()
+			}
 		}
 	}
 
